@@ -107,19 +107,23 @@ impl TrioWorld {
     }
     /// swap offering asset index `i` for asset index `j`
     pub fn swap(&mut self, who: &str, i: usize, j: usize, amount: u128, belief: Option<Decimal>, max_spread: Option<Decimal>) -> Result<AppResponse, String> {
+        self.swap_to(who, i, j, amount, belief, max_spread, None)
+    }
+    /// `to`: the account the proceeds are addressed to (None = the sender)
+    pub fn swap_to(&mut self, who: &str, i: usize, j: usize, amount: u128, belief: Option<Decimal>, max_spread: Option<Decimal>, to: Option<String>) -> Result<AppResponse, String> {
         let ask = self.assets[j].clone();
         let trio_addr = self.trio.clone();
         match self.assets[i].clone() {
             AssetInfo::NativeToken { denom } => {
                 let funds = if amount > 0 { vec![coin(amount, denom.clone())] } else { vec![] };
                 let msg = trio::ExecuteMsg::Swap { offer_asset: Asset { info: self.assets[i].clone(), amount: Uint128::new(amount) },
-                    ask_asset: ask, belief_price: belief, max_spread, to: None };
+                    ask_asset: ask, belief_price: belief, max_spread, to: to.clone() };
                 let app = &mut self.app;
                 guarded(|| app.execute_contract(Addr::unchecked(who), trio_addr, &msg, &funds))
             }
             AssetInfo::Token { contract_addr } => {
                 let msg = Cw20ExecuteMsg::Send { contract: trio_addr.to_string(), amount: Uint128::new(amount),
-                    msg: to_json_binary(&trio::Cw20HookMsg::Swap { ask_asset: ask, belief_price: belief, max_spread, to: None }).unwrap() };
+                    msg: to_json_binary(&trio::Cw20HookMsg::Swap { ask_asset: ask, belief_price: belief, max_spread, to: to.clone() }).unwrap() };
                 let app = &mut self.app;
                 guarded(|| app.execute_contract(Addr::unchecked(who), Addr::unchecked(contract_addr), &msg, &[]))
             }
